@@ -1,6 +1,7 @@
 """C18 - generators deliver exactly the requested collections and uniform member choices."""
 import json
 import os
+import subprocess
 import vlib
 import stats
 
@@ -43,6 +44,47 @@ def tv(ck, runs, first=0, tag="ch"):
     return vlib.read_ndjson(path)
 
 
+def sizes(ck):
+    """every size 0..600 + large ones through every sized constructor, validated by TLC (SizedEv)"""
+    path = os.path.join(ck.work, "ch-sizes.ndjson")
+    ck.harness(["ch-sizes", "--seed", ck.seed, "--out", path], timeout=1800)
+    ck.validate_runs("ec/Trace_Choices", "ec/Trace_Choices.cfg", path,
+                     lambda ev, prefix: f"trace:sized:{ev.get('kind')}",
+                     lambda ev, prefix: (f"{ev.get('kind')} asked for {ev.get('size')} elements delivered "
+                                         f"{ev.get('len')} (drew {ev.get('drawn')}): {json.dumps(ev)[:400]}"),
+                     regen=lambda ev: {"sizes": True}, timeout=2400)
+    return vlib.read_ndjson(path)
+
+
+def empty_arrays(ck):
+    """zero-length arrays in every conversion flavour: separate target, so that a compile-time
+    rejection is attributable to C18 instead of breaking the harness"""
+    env = dict(os.environ)
+    env["CARGO_NET_OFFLINE"] = "true"
+    p = subprocess.run(["cargo", "build", "--offline", "--bin", "vh-empty"], cwd=vlib.HARNESS, env=env,
+                       stdout=subprocess.PIPE, stderr=subprocess.STDOUT, text=True, timeout=1800)
+    if p.returncode != 0:
+        if "vh_empty.rs" in p.stdout:
+            errs = [ln for ln in p.stdout.splitlines() if ln.startswith("error")][:4]
+            ck.violation("compile:empty-array-conversion",
+                         "building a uniform choice from an EMPTY array no longer compiles (it must be rejected "
+                         "with an error value when built): " + " | ".join(errs),
+                         {"kind": "empty-arrays", "rustc": p.stdout[-3000:]})
+            return []
+        raise vlib.ToolError("vh-empty does not build:\n" + p.stdout[-2000:])
+    r = subprocess.run([os.path.join(vlib.HARNESS, "target", "debug", "vh-empty")], stdout=subprocess.PIPE,
+                       stderr=subprocess.PIPE, text=True, timeout=120)
+    rows = [json.loads(ln) for ln in r.stdout.splitlines() if ln.startswith("{")]
+    if r.returncode != 0 or len(rows) != 5:
+        raise vlib.ToolError(f"vh-empty exited {r.returncode}: {r.stderr[-800:]}")
+    for row in rows:
+        if row["outcome"] != "error_value":
+            ck.violation(f"replay:empty-array:{row['flavour']}:{row['outcome']}",
+                         f"an empty array in flavour {row['flavour']} was {row['outcome']} instead of rejected "
+                         f"with an error value", {"kind": "empty-arrays", "row": row})
+    return rows
+
+
 def law(ck, n):
     out = os.path.join(ck.work, "ch-law.ndjson")
     ck.harness(["ch-law", "--n", n, "--seed", ck.seed, "--out", out], timeout=3000)
@@ -71,9 +113,12 @@ def run(ck):
     res = ck.tlc_model("ec/MC_Choices", cfg, workers=4, cases_path=cpath, timeout=1800)
     summ = do_replay(ck, cpath, "mc", 40 if q else 400)
     evs = tv(ck, 2000 if q else 100000)
+    sz = sizes(ck)
+    ea = empty_arrays(ck)
     N = 60000 if q else 2000000
     rows, cells = law(ck, N)
-    ck.cov["evaluations"] = summ["cases"] + len(evs) + len(rows) * N
+    ck.cov["conformance"].update({"size_sweep_events": len(sz), "empty_array_flavours": len(ea)})
+    ck.cov["evaluations"] = summ["cases"] + len(evs) + len(sz) + len(rows) * N
     ck.cov["distinct_nontrivial"] = summ["cases"]
     ck.cov["rule"] = ("every collection of 0..MaxLen members over two values (duplicates) x 17 conversion "
                       "flavours; every pair of consecutive collection sizes 0..MaxSize x 6 collectors (Vec via "
@@ -96,5 +141,9 @@ def replay(ck, obj):
         do_replay(ck, p, "one", 400)
     elif obj["kind"] == "law":
         law(ck, obj["n"])
+    elif obj["kind"] == "empty-arrays":
+        empty_arrays(ck)
+    elif obj.get("regen", {}).get("sizes"):
+        sizes(ck)
     else:
         tv(ck, 1, first=obj["regen"]["run"], tag="one")
